@@ -11,6 +11,6 @@ mkdir -p $V/bin $V/build
 $V/bin/rtoverlay "$(go env GOROOT)" $V/build/rt || exit 2
 [ "${1:-}" = tools ] && exit 0
 W=$(mktemp -d /tmp/verif-setup.XXXXXX)
-$V/tools/build.sh "$W/b"; rc=$?
+VERIF_RACE=1 $V/tools/build.sh "$W/b"; rc=$?   # also warms the -race build used by C15
 rm -rf "$W"
 exit $rc
